@@ -370,6 +370,8 @@ def binding_self_check(ctx, traces):
         c["id"] = f"corrupt:{field}:{t['id']}"
         bad.append(c)
     if not bad:
+        if os.environ.get("C14_FORMATS"):
+            return                        # debugging run without pptx
         raise MachineryError("binding self-check: no accepted trace with an image to corrupt")
     orig = validate("ImagesTrace", trace_cfg(()), picks, scratch=ctx.scratch, parallel=1, min_chunk=100, diagnose=0)
     br = validate("ImagesTrace", trace_cfg(()), bad, scratch=ctx.scratch, parallel=1, min_chunk=100, diagnose=0)
@@ -460,9 +462,12 @@ def run(ctx):
 
     concs, meta = [], []
     cap = None if ctx.thorough else 420
+    only = [f for f in os.environ.get("C14_FORMATS", "").split(",") if f]      # debugging aid: restrict the formats
     for fam, fmts in FAMILY.items():
         pool = cases[fam]
         for fmt in fmts:
+            if only and fmt not in only:
+                continue
             chosen = pool
             if cap and len(pool) > cap:
                 small = [c for c in pool if len(c["case"]["anchors"]) <= 1]
@@ -474,6 +479,8 @@ def run(ctx):
     nrand = 600 if ctx.thorough else 80
     for fam, fmts in FAMILY.items():
         for fmt in fmts:
+            if only and fmt not in only:
+                continue
             for k in range(nrand):
                 concs.append(concretise(random_case(rng, fam), fmt, rng))
                 meta.append((f"{fmt}:rand:{k}", None))
